@@ -113,33 +113,6 @@ end Gotree.C07
 namespace Gotree.C07
 open Gotree
 
-/-- what the oracle demands of a branch of the tree before (MANDATORY part), on tuples -/
-def mandT (crit : Crit) (rt : Bool) (u : Tup) : Option Key :=
-  if u.2.2.2.1 then some (if rt && holdsT crit u then (u.1, 0, u.2.2.1, u.2.2.2.2.1) else keyT u)
-  else if holdsT crit u then none else some (keyT u)
-
-theorem mand_eq (crit : Crit) (rt : Bool) (eb : List Ent) :
-    (eb.filterMap fun e =>
-      if e.tip then some (if rt && crit.holds e then ({ e with len := 0 } : Ent).key else e.key)
-      else if crit.holds e then none else some e.key) = (eb.map Ent.tup).filterMap (mandT crit rt) := by
-  rw [List.filterMap_map]
-  congr 1
-  funext e
-  simp only [Function.comp, mandT, holds_tup]
-  rfl
-
-theorem mandT_keepV (crit : Crit) (rt : Bool) (x : Obs FB) :
-    (keepV (critV crit) rt x).map (fun y => keyT (obsTup y)) = mandT crit rt (obsTup x) := by
-  unfold keepV mandT
-  rw [holdsT_obsTup]
-  obtain ⟨fb, e, tip, d⟩ := x
-  cases hc : critV crit (fb, e, tip) <;> cases tip <;> cases rt <;> simp [keyT, obsTup, zeroLen]
-
-end Gotree.C07
-
-namespace Gotree.C07
-open Gotree
-
 /- ## the code's topological depth is the Spec's `lightSize` -/
 
 mutual
@@ -240,7 +213,7 @@ theorem resolveOK_of_obs (b a : T) (hb1 : b.kids.length ≠ 1) (ha1 : a.kids.len
     apply msub_append_of_perm _ (ex.map keyR)
     rw [← List.map_append]; exact hobs.map keyR
   have h4 : ((mdiff ((RT (FF b.tipNames) a).map ktR) ((RT (FF b.tipNames) b).map ktR)).all
-      fun x => x.1.2.1 == 0 && x.1.2.2.1 == NIL && x.1.2.2.2 == "" && !x.2) = true := by
+      fun x => x.1.2.1 == 0 && x.1.2.2.1 == NIL && !x.2) = true := by
     have hp : (mdiff ((RT (FF b.tipNames) a).map ktR) ((RT (FF b.tipNames) b).map ktR)).Perm (ex.map ktR) := by
       apply mdiff_perm_append
       rw [← List.map_append]; exact hobs.map ktR
@@ -248,8 +221,8 @@ theorem resolveOK_of_obs (b a : T) (hb1 : b.kids.length ≠ 1) (ha1 : a.kids.len
     rw [List.all_eq_true]
     intro x hx
     obtain ⟨y, hy, rfl⟩ := List.mem_map.mp hx
-    obtain ⟨e1, e2, _, e4, e5⟩ := hnew y hy
-    simp [ktR, keyR, e1, e2, e4, e5]
+    obtain ⟨e1, e2, _, e4, _⟩ := hnew y hy
+    simp [ktR, keyR, e1, e2, e4]
   have h5 : (a.distMatrix == b.distMatrix) = true := by
     have : a.distMatrix = b.distMatrix := by
       unfold T.distMatrix
@@ -270,8 +243,6 @@ end Gotree.C07
 
 namespace Gotree.C07
 open Gotree
-
-/- ## the collapse oracle on a rooted tree without `removeRoot` -/
 
 mutual
 theorem entsT_root (all : List String) : ∀ (c : T), ∀ e ∈ entsT all c, e.root = false
@@ -305,190 +276,5 @@ theorem entsL_prot (all : List String) : ∀ (k : Kids), ∀ e ∈ entsL all fal
     · exact entsT_prot all c e he
     · exact entsL_prot all r e he
 end
-
-/-- the entry of a root branch -/
-def rootEnt (all : List String) (e : EdgeD) (c : T) : Ent :=
-  ⟨canonSide all c.leaves, e.len, e.sup, c.isLeaf || false, c.name, true, lightSize all c.leaves, e.id,
-    true⟩
-
-theorem ents_rooted (all : List String) (d : NodeD) (p : Nat) (e1 e2 : EdgeD) (c1 c2 : T) :
-    ents all (.node d p [(e1, c1), (e2, c2)]) =
-      rootEnt all e1 c1 :: (entsT all c1 ++ (rootEnt all e2 c2 :: (entsT all c2 ++ []))) := by
-  simp [ents, entsL, rootEnt]
-
-/-- MANDATORY and OPTIONAL parts of the oracle, as functions of an entry -/
-def mandE (crit : Crit) (rt : Bool) (e : Ent) : Option Key :=
-  if e.tip then some (if rt && crit.holds e then ({ e with len := 0 } : Ent).key else e.key)
-  else if crit.holds e then none else some e.key
-
-def optE (crit : Crit) (e : Ent) : Option Key :=
-  if !e.tip && crit.holds e && e.prot then some e.key else none
-
-theorem collapseOK_eq (crit : Crit) (rt : Bool) (b a : T) :
-    collapseOK crit rt b a =
-      (sortS a.tipNames == sortS b.tipNames && a.name == b.name
-        && msub ((ents b.tipNames b).filterMap (mandE crit rt)) ((ents b.tipNames a).map Ent.key)
-        && msub (mdiff ((ents b.tipNames a).map Ent.key) ((ents b.tipNames b).filterMap (mandE crit rt)))
-             ((ents b.tipNames b).filterMap (optE crit))) := rfl
-
-/-- General form: whatever the tree before (rooted or not, with or without single-child nodes), as
-    long as its root is not a tip: if the observed branch list after is exactly the filtered list,
-    the oracle accepts (nothing optional is left over). -/
-theorem collapseOK_of_obs' (crit : Crit) (rt : Bool) (b a : T)
-    (hb1 : b.kids.length ≠ 1) (ha1 : a.kids.length ≠ 1)
-    (htips : a.tipNames.Perm b.tipNames) (hname : a.d = b.d)
-    (hobs : (obsT (FF b.tipNames) a).Perm ((obsT (FF b.tipNames) b).filterMap (keepV (critV crit) rt))) :
-    collapseOK crit rt b a = true := by
-  rw [collapseOK_eq]
-  have hm : (ents b.tipNames b).filterMap (mandE crit rt) =
-      (obsT (FF b.tipNames) b).filterMap (mandT crit rt ∘ obsTup) := by
-    have := mand_eq crit rt (ents b.tipNames b)
-    unfold mandE
-    rw [this, ents_tup _ b hb1, List.filterMap_map]
-  have hkeys : (ents b.tipNames a).map Ent.key = (obsT (FF b.tipNames) a).map (fun y => keyT (obsTup y)) := by
-    have := ents_tup b.tipNames a ha1
-    have h2 : (ents b.tipNames a).map Ent.key = ((ents b.tipNames a).map Ent.tup).map keyT := by
-      rw [List.map_map]; rfl
-    rw [h2, this, List.map_map]; rfl
-  rw [hm, hkeys]
-  have hperm : ((obsT (FF b.tipNames) a).map (fun y => keyT (obsTup y))).Perm
-      ((obsT (FF b.tipNames) b).filterMap (mandT crit rt ∘ obsTup)) := by
-    refine (hobs.map _).trans (List.Perm.of_eq ?_)
-    rw [List.map_filterMap]
-    apply filterMap_congr'
-    intro x _
-    exact mandT_keepV crit rt x
-  rw [msub_of_perm _ _ hperm.symm, mdiff_of_perm _ _ hperm]
-  have h1 : (sortS a.tipNames == sortS b.tipNames) = true := by
-    rw [sortS_perm_eq htips]; exact beq_self_eq_true _
-  have h2 : (a.name == b.name) = true := by
-    unfold T.name; rw [hname]; exact beq_self_eq_true _
-  simp [h1, h2, msub]
-
-/-- The collapse oracle accepts every tree `a` whose observed branch list is the filtered list of
-    `b`'s, on the same tips and root, for an unrooted `b` without single-child nodes. -/
-theorem collapseOK_of_obs (crit : Crit) (rt : Bool) (b a : T)
-    (hb3 : 3 ≤ b.kids.length) (_hns : b.noSingle = true) (ha1 : a.kids.length ≠ 1)
-    (htips : a.tipNames.Perm b.tipNames) (hname : a.d = b.d)
-    (hobs : (obsT (FF b.tipNames) a).Perm ((obsT (FF b.tipNames) b).filterMap (keepV (critV crit) rt))) :
-    collapseOK crit rt b a = true :=
-  collapseOK_of_obs' crit rt b a (by omega) ha1 htips hname hobs
-
-theorem optE_below (crit : Crit) (all : List String) (c : T) :
-    (entsT all c).filterMap (optE crit) = [] := by
-  rw [List.filterMap_eq_nil_iff]
-  intro e he
-  simp [optE, entsT_prot all c e he]
-
-theorem keys_below (all : List String) (c : T) :
-    (entsT all c).map Ent.key = (obsT (FF all) c).map (fun y => keyT (obsTup y)) := by
-  have h2 : (entsT all c).map Ent.key = ((entsT all c).map Ent.tup).map keyT := by
-    rw [List.map_map]; rfl
-  rw [h2, entsT_tup, List.map_map]; rfl
-
-theorem mand_below (crit : Crit) (rt : Bool) (all : List String) (c : T) :
-    (entsT all c).filterMap (mandE crit rt) = (obsT (FF all) c).filterMap (mandT crit rt ∘ obsTup) := by
-  have := mand_eq crit rt (entsT all c)
-  unfold mandE
-  rw [this, entsT_tup, List.filterMap_map]
-
-/-- rearrangement used below -/
-theorem perm_six {α : Type} (g1 o1 K1 M1 g2 o2 K2 M2 : List α) (h1 : K1.Perm M1) (h2 : K2.Perm M2) :
-    ((g1 ++ o1) ++ (K1 ++ ((g2 ++ o2) ++ (K2 ++ [])))).Perm ((g1 ++ (M1 ++ (g2 ++ (M2 ++ [])))) ++ (o1 ++ o2)) := by
-  simp only [List.append_nil, List.append_assoc]
-  refine List.Perm.append_left g1 ?_
-  refine (List.Perm.append_left o1 (h1.append (List.Perm.append_left g2 (List.Perm.append_left o2 h2)))).trans ?_
-  refine List.perm_append_comm.trans ?_
-  simp only [List.append_assoc]
-  refine List.Perm.append_left M1 (List.Perm.append_left g2 ?_)
-  refine (List.perm_append_comm (l₁ := o2) (l₂ := M2 ++ o1)).trans ?_
-  rw [List.append_assoc]
-
-end Gotree.C07
-
-namespace Gotree.C07
-open Gotree
-
-theorem holds_rootEnt (crit : Crit) (all : List String) (e : EdgeD) (c : T) :
-    crit.holds (rootEnt all e c) = critV crit (FF all c.leaves, e, c.isLeaf) := by
-  cases crit <;> rfl
-
-/-- a root branch after the operation is what the oracle wants of it: MANDATORY when it is a tip
-    branch or does not meet the criterion, OPTIONAL (and in fact kept) otherwise -/
-theorem rootEnt_key (crit : Crit) (rt : Bool) (all : List String) (e e' : EdgeD) (c c' : T)
-    (hl : c'.leaves.Perm c.leaves) (_hleaf : c'.isLeaf = c.isLeaf) (hd : c'.d = c.d)
-    (he' : e' = if crit.holds (rootEnt all e c) = true ∧ c.isLeaf = true ∧ rt = true then zeroLen e else e) :
-    [(rootEnt all e' c').key] =
-      (mandE crit rt (rootEnt all e c)).toList ++ (optE crit (rootEnt all e c)).toList := by
-  have hside : canonSide all c'.leaves = canonSide all c.leaves := canonSide_permInv all _ _ hl
-  have hname : c'.name = c.name := by unfold T.name; rw [hd]
-  have hk : ∀ x : EdgeD, (rootEnt all x c').key = (canonSide all c.leaves, x.len, x.sup, c.name) := by
-    intro x; simp [rootEnt, Ent.key, hside, hname]
-  have hk0 : (rootEnt all e c).key = (canonSide all c.leaves, e.len, e.sup, c.name) := by
-    simp [rootEnt, Ent.key]
-  have htip : (rootEnt all e c).tip = c.isLeaf := by simp [rootEnt]
-  have hroot : (rootEnt all e c).prot = true := by simp [rootEnt]
-  subst he'
-  rw [hk]
-  unfold mandE optE
-  rw [htip, hroot, hk0]
-  cases hh : crit.holds (rootEnt all e c) <;> cases hlf : c.isLeaf <;> cases rt <;>
-    simp [zeroLen, rootEnt, Ent.key]
-
-theorem collapseOK_rooted_of (crit : Crit) (rt : Bool) (d : NodeD) (p : Nat) (e1 e2 e1' e2' : EdgeD)
-    (c1 c2 c1' c2' : T)
-    (_hns : (T.node d p [(e1, c1), (e2, c2)]).noSingle = true)
-    (he1 : e1' = if crit.holds (rootEnt (T.node d p [(e1, c1), (e2, c2)]).tipNames e1 c1) = true ∧ c1.isLeaf = true ∧ rt = true then zeroLen e1 else e1)
-    (he2 : e2' = if crit.holds (rootEnt (T.node d p [(e1, c1), (e2, c2)]).tipNames e2 c2) = true ∧ c2.isLeaf = true ∧ rt = true then zeroLen e2 else e2)
-    (ho1 : (obsT (FF (T.node d p [(e1, c1), (e2, c2)]).tipNames) c1').Perm
-      ((obsT (FF (T.node d p [(e1, c1), (e2, c2)]).tipNames) c1).filterMap (keepV (critV crit) rt)))
-    (ho2 : (obsT (FF (T.node d p [(e1, c1), (e2, c2)]).tipNames) c2').Perm
-      ((obsT (FF (T.node d p [(e1, c1), (e2, c2)]).tipNames) c2).filterMap (keepV (critV crit) rt)))
-    (hl1 : c1'.leaves.Perm c1.leaves) (hl2 : c2'.leaves.Perm c2.leaves)
-    (hf1 : c1'.isLeaf = c1.isLeaf) (hf2 : c2'.isLeaf = c2.isLeaf) (hd1 : c1'.d = c1.d) (hd2 : c2'.d = c2.d) :
-    collapseOK crit rt (.node d p [(e1, c1), (e2, c2)]) (.node d p [(e1', c1'), (e2', c2')]) = true := by
-  rw [collapseOK_eq]
-  generalize hall : (T.node d p [(e1, c1), (e2, c2)]).tipNames = all at *
-  rw [ents_rooted, ents_rooted]
-  have htips : (T.node d p [(e1', c1'), (e2', c2')]).tipNames.Perm all := by
-    rw [← hall]
-    simp only [T.tipNames, T.kids_node, List.length_cons, List.length_nil, leavesL]
-    exact (List.Perm.refl _).append (hl1.append (hl2.append (List.Perm.refl _)))
-  have h1 : (sortS (T.node d p [(e1', c1'), (e2', c2')]).tipNames == sortS all) = true := by
-    rw [sortS_perm_eq htips]; exact beq_self_eq_true _
-  have h2 : ((T.node d p [(e1', c1'), (e2', c2')]).name == (T.node d p [(e1, c1), (e2, c2)]).name) = true :=
-    beq_self_eq_true _
-  -- the lists
-  have hK : ∀ (c c' : T), (obsT (FF all) c').Perm ((obsT (FF all) c).filterMap (keepV (critV crit) rt)) →
-      ((entsT all c').map Ent.key).Perm ((entsT all c).filterMap (mandE crit rt)) := by
-    intro c c' ho
-    rw [keys_below, mand_below]
-    refine (ho.map _).trans (List.Perm.of_eq ?_)
-    rw [List.map_filterMap]
-    apply filterMap_congr'
-    intro x _
-    exact mandT_keepV crit rt x
-  have hkeys : ((rootEnt all e1' c1' :: (entsT all c1' ++ (rootEnt all e2' c2' :: (entsT all c2' ++ [])))).map Ent.key).Perm
-      (((rootEnt all e1 c1 :: (entsT all c1 ++ (rootEnt all e2 c2 :: (entsT all c2 ++ [])))).filterMap (mandE crit rt)) ++
-       ((rootEnt all e1 c1 :: (entsT all c1 ++ (rootEnt all e2 c2 :: (entsT all c2 ++ [])))).filterMap (optE crit))) := by
-    have r1 := rootEnt_key crit rt all e1 e1' c1 c1' hl1 hf1 hd1 he1
-    have r2 := rootEnt_key crit rt all e2 e2' c2 c2' hl2 hf2 hd2 he2
-    have e_mand : (rootEnt all e1 c1 :: (entsT all c1 ++ (rootEnt all e2 c2 :: (entsT all c2 ++ [])))).filterMap (mandE crit rt) =
-        (mandE crit rt (rootEnt all e1 c1)).toList ++ ((entsT all c1).filterMap (mandE crit rt) ++
-          ((mandE crit rt (rootEnt all e2 c2)).toList ++ ((entsT all c2).filterMap (mandE crit rt) ++ []))) := by
-      simp only [List.filterMap_cons, List.filterMap_append, List.filterMap_nil]
-      cases mandE crit rt (rootEnt all e1 c1) <;> cases mandE crit rt (rootEnt all e2 c2) <;> simp
-    have e_opt : (rootEnt all e1 c1 :: (entsT all c1 ++ (rootEnt all e2 c2 :: (entsT all c2 ++ [])))).filterMap (optE crit) =
-        (optE crit (rootEnt all e1 c1)).toList ++ (optE crit (rootEnt all e2 c2)).toList := by
-      simp only [List.filterMap_cons, List.filterMap_append, List.filterMap_nil, optE_below]
-      cases optE crit (rootEnt all e1 c1) <;> cases optE crit (rootEnt all e2 c2) <;> simp
-    have e_keys : (rootEnt all e1' c1' :: (entsT all c1' ++ (rootEnt all e2' c2' :: (entsT all c2' ++ [])))).map Ent.key =
-        ([(rootEnt all e1' c1').key]) ++ ((entsT all c1').map Ent.key ++ ([(rootEnt all e2' c2').key] ++ ((entsT all c2').map Ent.key ++ []))) := by
-      simp
-    rw [e_mand, e_opt, e_keys, r1, r2]
-    exact perm_six _ _ _ _ _ _ _ _ (hK c1 c1' ho1) (hK c2 c2' ho2)
-  have h3 := msub_append_of_perm _ _ _ hkeys
-  have h4 := msub_of_perm _ _ (mdiff_perm_append _ _ _ hkeys)
-  simp only [h1, h2, h3, h4, Bool.and_self]
 
 end Gotree.C07
